@@ -1,6 +1,7 @@
 package main
 
 import (
+	"sync"
 	"fmt"
 	"go/token"
 	"go/types"
@@ -28,8 +29,19 @@ func protoRunMode(p *Prog, fn *ssa.Function, structPoints bool) (*sched, []proto
 }
 
 // protoRunFull: contracts != nil selects the glue mode; pre are initial facts
+var protoCurveOnce sync.Once
+
 func protoRunFull(p *Prog, fn *ssa.Function, structPoints bool, contracts map[string]*xContract, pre []pFact, alias ...map[int]int) (*sched, []protoOutcome) {
 	e := newSched(p, map[string]*tabSem{})
+	// the numeric values of the curve constants, so that a literal spelling of p, n, n-1, ... is recognised as the symbol
+	protoCurveOnce.Do(func() {
+		f := NewFolder(p)
+		P, e1 := f.CurveInt("P")
+		N, e2 := f.CurveInt("N")
+		if e1 == nil && e2 == nil {
+			setProtoCurve(P, N)
+		}
+	})
 	d := &protoDom{e: e, globals: map[string]func(st *sState) sVal{}, structPoints: structPoints, glue: contracts != nil, contracts: contracts, gOK: map[string]int{}, gBad: map[string][]string{}, stream: protoStreamMode}
 	e.proto = d
 	st := newSState()
@@ -74,8 +86,10 @@ func protoRunFull(p *Prog, fn *ssa.Function, structPoints bool, contracts map[st
 				why := "its initialiser cannot be followed (" + strings.Join(e.soft, "; ") + ")"
 				for name, id := range st.gcells {
 					if step, ok := e.cellStoreStep[id]; !ok || step >= e.softAt {
-						if arr, ok := st.heap[id].(*hArray); ok && len(arr.elems) == 1 {
-							arr.elems[0] = sOpaque{"package-level variable " + name + ": " + why}
+						if arr, ok := st.heap[id].(*hArray); ok {
+							for i := range arr.elems {
+								arr.elems[i] = sOpaque{"package-level variable " + name + ": " + why}
+							}
 						}
 					}
 				}
